@@ -93,6 +93,44 @@ Section CheckSound.
     apply IH; [exact Hrest|lia|exact Hfin].
   Qed.
 
+  (** *** the model's own observations pass the check *)
+  Definition path_code (pset : P) (o : O) : Z := match path pset o with Some r => res_code r | None => 0 end.
+  Definition model_op (pset : P) (o : O) : O * Z * O * Z := (o, path_code pset o, o, path_code defaults o).
+  Definition model_mcase (via : Z) (p : P) (ops : list O) : mcase P O :=
+    mkCase via p (outcome_code (validate p)) (outcome_code (fst (upd via p defaults))) defaults
+           (snd (upd via p defaults)) (map (model_op (snd (upd via p defaults))) ops).
+
+  Lemma check_ops_id pset l : forall i corr prop code,
+    Forall (fun e => corr_op path defaults pset e = true /\ prop_op e = true) l ->
+    cops pset l i corr prop code = (corr, prop, code).
+  Proof.
+    induction l as [|e l IH]; intros i corr prop code Hall; [reflexivity|].
+    inversion Hall as [|? ? [Hc Hp] Hrest]; subst. cbn [check_ops]. rewrite Hc, Hp. cbn [negb].
+    rewrite !andb_false_r. apply IH. exact Hrest.
+  Qed.
+
+  Lemma model_mcase_passes via p ops :
+    small p -> Forall wf ops ->
+    check_mcase validate upd path defaults base (model_mcase via p ops) = (-1, -1, 0).
+  Proof.
+    intros Hs Hwf. unfold check_mcase.
+    assert (Hcu : corr_update validate upd defaults (model_mcase via p ops) = true).
+    { unfold corr_update, model_mcase. cbn [k_via k_params k_before k_val k_upd k_after].
+      destruct (upd via p defaults) as [o st]. simpl. rewrite !eqb_refl, !Bool.eqb_reflx. reflexivity. }
+    rewrite Hcu, (corr_update_prop _ Hcu). change (0 =? 0) with true. cbv iota.
+    destruct (corr_update_after _ Hcu Hs) as [Hv Hsm].
+    apply check_ops_id. cbn [k_ops k_after model_mcase] in *.
+    set (st := snd (upd via p defaults)) in *. clear Hcu.
+    induction ops as [|o ops IH]; [constructor|].
+    inversion Hwf as [|? ? Ho Hrest]; subst. constructor; [|exact (IH Hrest)].
+    split.
+    - unfold corr_op, model_op, agrees, path_code.
+      destruct (path st o); destruct (path defaults o); rewrite ?Z.eqb_refl; reflexivity.
+    - unfold prop_op, model_op, path_code. destruct (path st o) as [r|] eqn:Er; [|reflexivity].
+      pose proof (Hna st o r Hv Hsm Ho Er) as Hnab. unfold res_code.
+      destruct (res_outcome r); simpl; try reflexivity. congruence.
+  Qed.
+
   Theorem check_mcase_sound (c : mcase P O) :
     small (k_params c) ->
     Forall (fun e => wf (op_of e) /\ path (k_after c) (op_of e) <> None) (k_ops c) ->
@@ -108,34 +146,77 @@ Section CheckSound.
   Qed.
 End CheckSound.
 
-(** side conditions of a case, per module *)
-Definition mcase_wf {P O} (path : P -> O -> option res) (small : P -> Prop) (wf : O -> Prop) (c : mcase P O) : Prop :=
-  small (k_params c)
-  /\ Forall (fun e => wf (op_of e) /\ path (k_after c) (op_of e) <> None) (k_ops c).
+(** side conditions of a case, per module: every operation is a modelled one and well formed *)
+Definition mcase_wf {P O} (path : P -> O -> option res) (wf : O -> Prop) (c : mcase P O) : Prop :=
+  Forall (fun e => wf (op_of e) /\ path (k_after c) (op_of e) <> None) (k_ops c).
 
 Definition case_wf (c : case) : Prop :=
   match c with
-  | CaseCS c => mcase_wf cs_path cs_small cs_op_wf c
-  | CaseFM c => mcase_wf fm_path fm_small (fun _ => True) c
-  | CaseHT c => mcase_wf ht_path ht_small (fun _ => True) c
-  | CaseSV c => mcase_wf sv_path sv_small sv_op_wf c
-  | CaseTK c => mcase_wf tk_path tk_small tk_op_wf c
+  | CaseCS c => mcase_wf cs_path cs_op_wf c
+  | CaseFM c => mcase_wf fm_path (fun _ => True) c
+  | CaseHT c => mcase_wf ht_path (fun _ => True) c
+  | CaseSV c => mcase_wf sv_path sv_op_wf c
+  | CaseTK c => mcase_wf tk_path tk_op_wf c
   end.
 
 Lemma agreement_implies_property_lemma c :
   case_wf c -> fst (fst (check_case c)) = -1 -> snd (fst (check_case c)) = -1.
 Proof.
   destruct (defaults_validate_lemma) as (D1 & D2 & D3 & D4 & D5).
-  destruct init_small as (S1 & S2 & S3 & S4 & S5). simpl in S1, S2, S3, S4, S5.
-  destruct c as [c|c|c|c|c]; intros [Hs Hall]; simpl.
-  - apply check_mcase_sound with (small := cs_small) (wf := cs_op_wf); auto.
+  destruct c as [c|c|c|c|c]; intros Hall; simpl.
+  - apply check_mcase_sound with (small := fun _ => True) (wf := cs_op_wf); auto.
     intros; eapply cs_no_panic; eassumption.
-  - apply check_mcase_sound with (small := fm_small) (wf := fun _ => True); auto.
+  - apply check_mcase_sound with (small := fun _ => True) (wf := fun _ => True); auto.
     intros; eapply fm_no_panic; eassumption.
-  - apply check_mcase_sound with (small := ht_small) (wf := fun _ => True); auto.
+  - apply check_mcase_sound with (small := fun _ => True) (wf := fun _ => True); auto.
     intros; eapply ht_no_panic; eassumption.
-  - apply check_mcase_sound with (small := sv_small) (wf := sv_op_wf); auto.
+  - apply check_mcase_sound with (small := fun _ => True) (wf := sv_op_wf); auto.
     intros; eapply sv_no_panic; eassumption.
-  - apply check_mcase_sound with (small := tk_small) (wf := tk_op_wf); auto.
+  - apply check_mcase_sound with (small := fun _ => True) (wf := tk_op_wf); auto.
+    intros; eapply tk_no_panic; eassumption.
+Qed.
+
+(** ** The model's own observations pass the check: for every module, every way of submitting, every
+    submitted set and every list of well-formed operations, the case built from the MODEL's outcomes
+    evaluates to (-1, -1, 0). *)
+Inductive mspec :=
+| MCS (via : Z) (p : cs_params) (ops : list cs_op)
+| MFM (via : Z) (p : fm_params) (ops : list fm_op)
+| MHT (via : Z) (p : ht_params) (ops : list ht_op)
+| MSV (via : Z) (p : sv_params) (ops : list sv_op)
+| MTK (via : Z) (p : tk_params) (ops : list tk_op).
+
+Definition model_case_of (m : mspec) : case :=
+  match m with
+  | MCS via p ops => CaseCS (model_mcase validate_cs (fun _ => true) cs_path cs_defaults via p ops)
+  | MFM via p ops => CaseFM (model_mcase validate_fm (fun _ => true) fm_path fm_defaults via p ops)
+  | MHT via p ops => CaseHT (model_mcase validate_ht (fun _ => true) ht_path ht_defaults via p ops)
+  | MSV via p ops => CaseSV (model_mcase validate_sv (fun _ => true) sv_path sv_defaults via p ops)
+  | MTK via p ops => CaseTK (model_mcase validate_tk (fun p => tk_registered (c_denom (tk_fee p))) tk_path tk_defaults via p ops)
+  end.
+
+Definition mspec_wf (m : mspec) : Prop :=
+  match m with
+  | MCS _ _ ops => Forall cs_op_wf ops
+  | MSV _ _ ops => Forall sv_op_wf ops
+  | MTK _ _ ops => Forall tk_op_wf ops
+  | _ => True
+  end.
+
+Lemma model_passes_check_lemma m : mspec_wf m -> check_case (model_case_of m) = (-1, -1, 0).
+Proof.
+  destruct (defaults_validate_lemma) as (D1 & D2 & D3 & D4 & D5).
+  destruct m as [via p ops|via p ops|via p ops|via p ops|via p ops]; intros Hwf; simpl.
+  - apply model_mcase_passes with (small := fun _ => True) (wf := cs_op_wf); auto.
+    intros; eapply cs_no_panic; eassumption.
+  - apply model_mcase_passes with (small := fun _ => True) (wf := fun _ => True); auto.
+    + intros; eapply fm_no_panic; eassumption.
+    + clear. induction ops; constructor; auto.
+  - apply model_mcase_passes with (small := fun _ => True) (wf := fun _ => True); auto.
+    + intros; eapply ht_no_panic; eassumption.
+    + clear. induction ops; constructor; auto.
+  - apply model_mcase_passes with (small := fun _ => True) (wf := sv_op_wf); auto.
+    intros; eapply sv_no_panic; eassumption.
+  - apply model_mcase_passes with (small := fun _ => True) (wf := tk_op_wf); auto.
     intros; eapply tk_no_panic; eassumption.
 Qed.
